@@ -57,6 +57,9 @@ class AdvancedHTMLFormatter(HTMLParser):
         self.reset = self._reset
         self.decl = None
         self.currentIndentLevel = 0
+        if isinstance(indent, int):
+            # An integer means that many spaces per level
+            indent = ' ' * indent
         self.indent = indent
         self.encoding = encoding
 
